@@ -21,6 +21,13 @@ int gstuff_autorecv_newchar_v1(struct gstuff_autorecv_v1 *autom, char c)
 
     switch (autom->state)
     {
+    case 3:
+        // После переполнения или ошибки стаффинга остаток испорченного
+        // пакета отбрасывается до следующего разделителя.
+        if (c != GSTUFF_START_V1)
+            goto __continue__;
+        IGRIS_FALLTHROUGH
+
     case 0:
         gstuff_autorecv_reset_v1(autom);
 
@@ -74,9 +81,10 @@ int gstuff_autorecv_newchar_v1(struct gstuff_autorecv_v1 *autom, char c)
             c = GSTUFF_STUB_V1;
             break;
         default:
-            // Невалидный пакет.
-            sts = GSTUFF_DATA_ERROR_V1;
-            goto __finish__;
+            // Невалидный пакет. Разделитель сразу открывает следующий,
+            // иначе ждём разделителя.
+            autom->state = (c == GSTUFF_START_V1) ? 0 : 3;
+            return GSTUFF_DATA_ERROR_V1;
         }
 
         goto __putchar__;
@@ -85,8 +93,8 @@ int gstuff_autorecv_newchar_v1(struct gstuff_autorecv_v1 *autom, char c)
 __putchar__:
     if (!sline_putchar(&autom->line, c))
     {
-        sts = GSTUFF_OVERFLOW_V1;
-        goto __finish__;
+        autom->state = 3;
+        return GSTUFF_OVERFLOW_V1;
     }
     igris_strmcrc8(&autom->crc, c);
     autom->state = 1;
